@@ -38,6 +38,7 @@ class WsgiRun:
         self.n, self.raise_at = n, raise_at
         self.log = []
         self.yields = 0
+        self.yields_at_close = None     # how far the producer was when the server asked to close
         self.out = []
         self.results = []
         self.started_iter = False
@@ -125,6 +126,8 @@ class WsgiRun:
 
     def apply(self, action):
         who, dec = self.GRANT.get(action, ("relay", "go"))
+        if dec == "close" and self.yields_at_close is None:
+            self.yields_at_close = self.yields
         st = self.s.status.get(who)
         if st is None or st[0] != "parked":
             return False
@@ -202,6 +205,8 @@ class WsgiRun:
             if srv[0] == "parked" and srv[1] == "server-idle":
                 if self.results:
                     break
+                if self.yields_at_close is None:
+                    self.yields_at_close = self.yields
                 if not s.step("server", "close")[0]:
                     return "close() blocked outside any control point (real block)"
                 continue
@@ -246,6 +251,8 @@ class WsgiRun:
         if self.raise_at and o["produced"] + 1 >= self.raise_at and o["outcome"] not in ("raised",) and "raise" in self._reached:
             bad.append("the producer's exception was swallowed (outcome %s)" % o["outcome"])
         started = o["produced"] > 0 or self._gen_started
+        if self.yields_at_close is not None and o["produced"] > self.yields_at_close + 1:
+            bad.append("after close() the producer was advanced by %d more items (at most the step in flight is allowed)" % (o["produced"] - self.yields_at_close))
         if o["genClosed"] > 1:
             bad.append("generator cleanup ran %d times" % o["genClosed"])
         if started and o["genClosed"] != 1:
